@@ -3029,7 +3029,7 @@ func (g *gen) ntsScenario(idx int) {
 	}
 }
 
-// flapScenario (family 8, round 2, "a node flaps while queries are being routed"): every policy kind rr | dc | rack, bare
+// flapScenario (family 8, round 2; thorough: 60 policies x 3 ops x 2000 trials, "a node flaps while queries are being routed"): every policy kind rr | dc | rack, bare
 // and (every other one) as fallback of a token-aware policy, 6..24 hosts over the tiers, all added; 3 `flap` ops on hosts
 // of different tiers, modes updown (HostDown with the state set down, then HostUp - what the session does) and remadd
 // (RemoveHost / AddHost, odd trials race the RemoveHost): per op <trials> trials of a quiet preparing call, then the
@@ -4037,7 +4037,7 @@ func main() {
 	// (round 2) FLAP family: Picks concurrent with host changes, quiescent re-check after every trial
 	nfl, ntr := 24, 1000
 	if tier == "thorough" {
-		nfl, ntr = 120, 3000
+		nfl, ntr = 60, 2000
 	}
 	for i := 0; i < nfl; i++ {
 		g.flapScenario(i, ntr)
